@@ -37,6 +37,8 @@ type C18Scenario struct {
 	Chunk   uint64    `json:"chunk"`
 	Peers   []C18Peer `json:"peers"`           // peer 0 is always fully capable and fault-free ...
 	Split   bool      `json:"split,omitempty"` // ... unless split: peers 0 and 1 (both fault-free) hold the range only together
+	// Bounce: before the request the connection to peer 0 drops and comes back (once or twice)
+	Bounce int `json:"bounce,omitempty"`
 }
 
 const c18ChainLen = 260
@@ -76,6 +78,7 @@ func genC18(t *rapid.T) C18Scenario {
 		s.Peers = append(s.Peers, p)
 	}
 	s.Metrics = rapid.IntRange(0, 3).Draw(t, "metrics") == 0
+	s.Bounce = rapid.SampledFrom([]int{0, 0, 0, 1, 2}).Draw(t, "bounce")
 	// no Restart here: the peer tracker is not restartable upstream (its context is created by the constructor), so a
 	// restarted Exchange never learns about peers connecting later; Head/Get (C09, C13) do not depend on it
 	return s
@@ -182,6 +185,21 @@ func runC18(t *testing.T, s C18Scenario) (res Result) {
 			return
 		}
 		synctest.Wait()
+		for b := 0; b < s.Bounce; b++ {
+			if err := ne.mn.DisconnectPeers(ne.hosts[0].ID(), ne.hosts[1].ID()); err != nil {
+				res.failf("HARNESS: disconnect: %v", err)
+				return
+			}
+			time.Sleep(10 * time.Millisecond)
+			synctest.Wait()
+			if _, err := ne.mn.ConnectPeers(ne.hosts[0].ID(), ne.hosts[1].ID()); err != nil {
+				res.failf("HARNESS: reconnect: %v", err)
+				return
+			}
+			time.Sleep(10 * time.Millisecond)
+			synctest.Wait()
+			res.label("connection_bounced")
+		}
 
 		for i, p := range s.Peers {
 			if p.DisconnectAtMs >= 0 {
